@@ -62,16 +62,18 @@ EQ = {
     H + "overlapsWhichSymmetryLine": (M + "EqOverlapsWhichSymmetryLine", []),
     H + "_getSymmetricIdenticalsThird": (M + "EqSymmetricIdenticalsThird", []),
     H + "isInFirstThird": (M + "EqIsInFirstThird", [M + "EqIndicesToRingPos"]),
+    H + "rotateIndex": (M + "EqRotateIndex", []),
     T + "getRingPos": (M + "EqTrzRingPos", []),
     T + "getIndicesFromRingAndPos": (M + "EqTrzIndices", []),
     C + "getPositionsInRing": (M + "EqCartPositionsInRing", []),
+    C + "getRingPos": (M + "EqCartRingPos", []),
     U + "getNodesPerCycle": (M + "EqNodesPerCycle", []),
     U + "getCumulativeNodeNum": (M + "EqCumulativeNode", []),
     U + "getPreviousTimeNode": (M + "EqPreviousTimeNode", []),
     U + "getCycleNodeFromCumulativeNode": (M + "EqCycleNodeFromCumulativeNode", [M + "EqNodesPerCycle"]),
     U + "getCycleNodeFromCumulativeStep": (M + "EqCycleNodeFromCumulativeStep", []),
     X + "getXSTypeNumberFromLabel": (M + "EqXsNumberFromLabel", []),
-    X + "getXSTypeLabelFromNumber": (M + "EqXsLabelFromNumber", [M + "EqXsNumberFromLabel"]),
+    X + "getXSTypeLabelFromNumber": (M + "EqXsLabelFromNumber", []),
     CC + "getBlockBandwidth": (M + "EqBlockBandwidth", []),
     DB + "getH5GroupName": (M + "EqH5GroupName", []),
     N + "getMcnpId": (M + "EqMcnpId", []),
@@ -81,8 +83,8 @@ EQ = {
 EXPECT_FMT = {N + "getMcnpId": "{0:d}{1:03d}", N + "getAAAZZZSId": "{0}{1:>03d}{2}"}
 # (documentation) functions with no equivalence theorem: today outside the subset (outcome (b) on the unchanged tree)
 NO_EQ = {
-    G + "numRingsToHoldNumCells", G + "getIndexOfRotatedCell", H + "getMinimumRings", H + "rotateIndex",
-    C + "getRingPos", C + "getMinimumRings",
+    G + "numRingsToHoldNumCells", G + "getIndexOfRotatedCell", H + "getMinimumRings",
+    C + "getMinimumRings",
     N + "_createLabel",
 }
 # corollary module -> functions whose equivalence it uses
@@ -92,7 +94,9 @@ COR = {
     M + "CorHexNeighbours": [H + "getNeighboringCellIndices"],
     M + "CorTrz": [T + "getRingPos", T + "getIndicesFromRingAndPos"],
     M + "CorCartRing": [C + "getPositionsInRing"],
+    M + "CorCartRingPos": [C + "getRingPos", C + "getPositionsInRing"],
     M + "CorHexSym": [H + "_getSymmetricIdenticalsThird", H + "overlapsWhichSymmetryLine", H + "isInFirstThird"],
+    M + "CorHexRotate": [H + "rotateIndex"],
     M + "CorNodes": [U + "getCumulativeNodeNum", U + "getPreviousTimeNode"],
     M + "CorNodesInverse": [U + "getCumulativeNodeNum", U + "getCycleNodeFromCumulativeNode", U + "getCycleNodeFromCumulativeStep"],
     M + "CorMcnpId": [N + "getMcnpId"],
@@ -107,10 +111,11 @@ TIES = {
                           H + "_indicesAndEdgeFromRingAndPos", H + "getIndicesFromRingAndPos",
                           H + "getNeighboringCellIndices", T + "getRingPos", T + "getIndicesFromRingAndPos",
                           C + "getPositionsInRing", C + "getRingPos", C + "getMinimumRings"],
-            "corollaries": [M + "CorHexRingPos", M + "CorHexTotal", M + "CorHexNeighbours", M + "CorTrz", M + "CorCartRing"]},
+            "corollaries": [M + "CorHexRingPos", M + "CorHexTotal", M + "CorHexNeighbours", M + "CorTrz", M + "CorCartRing", M + "CorCartRingPos"]},
     "C08": {"functions": [H + "_getSymmetricIdenticalsThird", H + "overlapsWhichSymmetryLine", H + "isInFirstThird",
                           H + "indicesToRingPos", H + "rotateIndex", G + "getIndexOfRotatedCell"],
-            "corollaries": [M + "CorHexSym"]},
+            "corollaries": [M + "CorHexSym", M + "CorHexRotate"]},
+    "C14": {"functions": ["armi/reactor/spentFuelPool.py::SpentFuelPool._getNextLocation"], "corollaries": []},
     "C09": {"functions": [CC + "getBlockBandwidth"], "corollaries": [M + "CorBlockBandwidth"]},
     "C04": {"functions": [DB + "getH5GroupName"], "corollaries": [M + "CorH5GroupName"]},
     "C06": {"functions": [DB + "getH5GroupName"], "corollaries": [M + "CorH5GroupName"]},
@@ -213,6 +218,20 @@ def guarded(fn, seconds=2.0):
         signal.signal(signal.SIGALRM, old)
 
 
+def _rotate_raw(flat):
+    """HexGrid.rotateIndex on real objects: a real grid, a real IndexLocation (grid None = consistent; a Cartesian grid =
+    inconsistent -> TypeError)"""
+    from armi.reactor import grids
+    rot, cons, i, j, k = flat
+    hg = _rotate_raw.hg = getattr(_rotate_raw, "hg", None) or grids.HexGrid.fromPitch(1.0, numRings=0)
+    other = _rotate_raw.other = getattr(_rotate_raw, "other", None) or grids.CartesianGrid.fromRectangle(1.0, 1.0)
+    r = hg.rotateIndex(grids.IndexLocation(i, j, k, None if cons else other), rot)
+    return (r.i, r.j, r.k)
+
+
+CUSTOM_RAW = {"armi/reactor/grids/hexagonal.py::HexGrid.rotateIndex": _rotate_raw}
+
+
 class PyFn:
     """the real Python function behind a translated definition, callable on flat integer arguments"""
 
@@ -228,7 +247,7 @@ class PyFn:
         else:
             self.func = getattr(mod, parts[0])
         self.binds = []
-        for src, (pname, t) in target.binds.items():
+        for src, (pname, t) in ({} if self.key in CUSTOM_RAW else target.binds).items():
             node = ast.parse(src, mode="eval").body
             is_call = isinstance(node, ast.Call)
             if is_call and isinstance(node.func, ast.Name) and all(isinstance(a, ast.Name) for a in node.args):
@@ -263,6 +282,8 @@ class PyFn:
 
     def raw(self, flat):
         """the Python return value (exceptions propagate)"""
+        if self.key in CUSTOM_RAW:
+            return CUSTOM_RAW[self.key](list(flat))
         vals = self.unflatten(flat)
         objs, patches = {}, []
         for pname, root, attr, is_call in self.binds:
@@ -342,9 +363,11 @@ def direct_fns():
         "overlapsWhichSymmetryLine": lambda i, j: hg.overlapsWhichSymmetryLine((i, j)),
         "_getSymmetricIdenticalsThird": lambda i, j, k: hg._getSymmetricIdenticalsThird((i, j, k)),
         "isInFirstThird": lambda top, i, j, k: hg.isInFirstThird(NS(indices=(i, j, k)), includeTopEdge=bool(top)),
+        "rotateIndex": lambda rot, i, j, k: _rotate_raw([rot, 1, i, j, k]),
         "trzGetRingPos": lambda i, j, k: tg.getRingPos((i, j, k)),
         "trzGetIndicesFromRingAndPos": lambda r, p: tg.getIndicesFromRingAndPos(r, p),
         "cartGetPositionsInRing": lambda r, t: cgs[1 if t else 0].getPositionsInRing(r),
+        "cartGetRingPos": lambda i, j, t: cgs[1 if t else 0].getRingPos((i, j, 0)),
     }
     from armi import utils as autils
 
@@ -384,6 +407,10 @@ LOOP_INT_BOUND = 300      # integer arguments of functions that contain (or call
 
 
 def _big(rng, loop=False):
+    if loop == "half":      # float code carried as exact half-integers: inputs below 2^45, so that every intermediate
+        b = rng.randint(1, 45)  # (small integer multiples, sums) stays below 2^52 where doubles hold half-integers exactly
+        v = rng.randint(0, (1 << b))
+        return v if rng.random() < 0.5 else -v
     if loop:
         return rng.randint(-LOOP_INT_BOUND, LOOP_INT_BOUND)
     b = rng.randint(1, 62)
@@ -438,7 +465,7 @@ def gen_inputs(res, rng, quick=True, loop=False):
             return _big(rng, loop)
         if mode == "near":
             v = rng.choice(near) if rng.random() < 0.6 else rng.randint(-30, 30)
-            return max(-LOOP_INT_BOUND, min(LOOP_INT_BOUND, v)) if loop else v
+            return max(-LOOP_INT_BOUND, min(LOOP_INT_BOUND, v)) if loop is True else v
         return rng.randint(-3, 3)
 
     out = []
@@ -673,6 +700,41 @@ class Clauses:
             out.append(("srctie-trz-roundtrip", "getRingPos(getIndicesFromRingAndPos(r,p)) == (r,p)", {"ring": i, "pos": j}, rp2, [i, j]))
         return out
 
+    def cart_cell(self, i, j, through):
+        """ring = Chebyshev distance of the cell centre from the grid centre + 1; pos within the ring's range; the
+        numbering is injective on each ring (checked through the square-spiral order: neighbours along the ring differ by 1)"""
+        out, case = [], {"i": i, "j": j, "throughCenter": bool(through)}
+        ring, pos = self.call("cartGetRingPos", i, j, through)
+        if through:
+            want = max(abs(i), abs(j)) + 1
+        else:
+            want = max(abs(2 * i + 1), abs(2 * j + 1)) // 2 + 1
+        if ring != want:
+            out.append(("srctie-cart-ring-is-distance", "ring == Chebyshev distance from the grid centre + 1", case, ring, want))
+        npos = self.call("cartGetPositionsInRing", ring, through)
+        if not 1 <= pos <= npos:
+            out.append(("srctie-cart-pos-range", "1 <= pos <= getPositionsInRing(ring)", case, [ring, pos], npos))
+        return out
+
+    def cart_ring_bijection(self, r, through):
+        """the cells at Chebyshev distance r-1 from the grid centre are exactly ring r, numbered 1..getPositionsInRing(r)
+        without repetition"""
+        lo, hi = (-(r - 1), r - 1) if through else (-r, r - 1)
+        cells = {(i, lo) for i in range(lo, hi + 1)} | {(i, hi) for i in range(lo, hi + 1)} \
+            | {(lo, j) for j in range(lo, hi + 1)} | {(hi, j) for j in range(lo, hi + 1)}
+        rps = [self.call("cartGetRingPos", i, j, through) for (i, j) in sorted(cells)]
+        case = {"ring": r, "throughCenter": bool(through)}
+        bad = [list(rp) for rp in rps if rp[0] != r]
+        if bad:
+            return [("srctie-cart-ring-numbering", "a cell at Chebyshev distance r-1 from the grid centre is in ring r", case, bad[:4], r)]
+        got = sorted(rp[1] for rp in rps)
+        n = self.call("cartGetPositionsInRing", r, through)
+        if got != list(range(1, n + 1)):
+            miss = sorted(set(range(1, n + 1)) - set(got))[:6]
+            return [("srctie-cart-ring-numbering", "the cells of ring r are numbered 1..getPositionsInRing(r) without repetition",
+                     case, {"missing": miss, "cells": len(got)}, n)]
+        return []
+
     def cart_total(self, r, through):
         if r < 1 or r > 3000:
             return []
@@ -837,6 +899,27 @@ class Clauses:
                                 dict(case, top=bool(top)), got, want))
         return out
 
+    def rotate(self, i, j, k, l):
+        """k index steps = k x 60 degrees counter-clockwise on the cell centre, additive, ring preserving, axial index kept"""
+        out, case = [], {"i": i, "j": j, "rotations": k}
+        r = self.call("rotateIndex", k, i, j, 5)
+        if len(r) != 3 or r[2] != 5:
+            return [("srctie-rotate-axial", "rotation keeps the axial index", case, list(r), None)]
+        n = k % 6
+        want = _coef(i, j)
+        for _ in range(n):
+            want = _r60x2(*want)
+        got = _coef(r[0], r[1])
+        if (got[0] * 2 ** n, got[1] * 2 ** n) != tuple(want):
+            out.append(("srctie-rotate-geometry", "k index steps turn the cell centre by k x 60 degrees counter-clockwise", case, list(r), None))
+        if hexdist(r[0], r[1]) != hexdist(i, j):
+            out.append(("srctie-rotate-ring", "rotation preserves the ring", case, list(r), None))
+        r2 = self.call("rotateIndex", l, r[0], r[1], 5)
+        r12 = self.call("rotateIndex", k + l, i, j, 5)
+        if tuple(r2) != tuple(r12):
+            out.append(("srctie-rotate-additive", "rotations compose additively", dict(case, then=l), [list(r2), list(r12)], None))
+        return out
+
     def line(self, i, j):
         v = self.call("overlapsWhichSymmetryLine", i, j)
         a, b = _coef(i, j)
@@ -860,8 +943,9 @@ SHORT = {
     G + "numPositionsInRing": "numPositionsInRing", H + "getPositionsInRing": "getPositionsInRing",
     G + "totalPositionsUpToRing": "totalPositionsUpToRing", H + "getNeighboringCellIndices": "getNeighboringCellIndices",
     H + "overlapsWhichSymmetryLine": "overlapsWhichSymmetryLine", H + "_getSymmetricIdenticalsThird": "_getSymmetricIdenticalsThird",
-    H + "isInFirstThird": "isInFirstThird", T + "getRingPos": "trzGetRingPos",
+    H + "isInFirstThird": "isInFirstThird", H + "rotateIndex": "rotateIndex", T + "getRingPos": "trzGetRingPos",
     T + "getIndicesFromRingAndPos": "trzGetIndicesFromRingAndPos", C + "getPositionsInRing": "cartGetPositionsInRing",
+    C + "getRingPos": "cartGetRingPos",
     U + "getNodesPerCycle": "getNodesPerCycle", U + "getCumulativeNodeNum": "getCumulativeNodeNum",
     U + "getPreviousTimeNode": "getPreviousTimeNode", U + "getCycleNodeFromCumulativeNode": "getCycleNodeFromCumulativeNode",
     U + "getCycleNodeFromCumulativeStep": "getCycleNodeFromCumulativeStep", N + "getMcnpId": "getMcnpId", N + "getAAAZZZSId": "getAAAZZZSId",
@@ -926,6 +1010,16 @@ def clause_inputs(c, key, res, rng, thorough):
     if key in (T + "getRingPos", T + "getIndicesFromRingAndPos") and "trzGetRingPos" in P and "trzGetIndicesFromRingAndPos" in P:
         for (i, j) in sorted(hex_cells(40), key=lambda c: hexdist(*c)) + extra:
             yield c.trz, (i, j, rng.choice((0, 3, -1)))
+    if key == C + "getRingPos" and "cartGetRingPos" in P:
+        for t in (0, 1):
+            for i in range(-80, 81):
+                for j in range(-80, 81):
+                    yield c.cart_cell, (i, j, t)
+            for r in range(1, 320):
+                yield c.cart_ring_bijection, (r, t)
+            for (i, j) in extra[:1200]:
+                if abs(i) < 2 ** 45 and abs(j) < 2 ** 45:
+                    yield c.cart_cell, (i, j, t)
     if key == C + "getPositionsInRing" and "cartGetPositionsInRing" in P:
         for r in list(range(1, 400)) + [1000, 2999]:
             for t in (0, 1):
@@ -972,6 +1066,13 @@ def clause_inputs(c, key, res, rng, thorough):
             yield c.third, ij
         for ij in extra:
             yield c.third, ij
+    if key == H + "rotateIndex" and "rotateIndex" in P:
+        ks = list(range(-7, 14))
+        for ij in sorted(hex_cells(25), key=lambda c: hexdist(*c)):
+            for k in ks:
+                yield c.rotate, (ij[0], ij[1], k, rng.choice(ks))
+        for ij in extra[:1500]:
+            yield c.rotate, (ij[0], ij[1], rng.choice(ks + big[:50]), rng.choice(ks + big[:50]))
     if key == H + "overlapsWhichSymmetryLine" and "overlapsWhichSymmetryLine" in P:
         for ij in cells:
             yield c.line, ij
@@ -1017,7 +1118,7 @@ def extended_search(ctx, key, res, P, PF, why):
     ndiff, first = 0, None
     pf = PF.get(key)
     if pf is not None:
-        inputs = gen_inputs(res, rng, quick=False, loop=bool(res.get("has_loop"))) + extra_inputs(key)
+        inputs = gen_inputs(res, rng, quick=False, loop=(True if res.get("has_loop") else ("half" if res.get("uses_half") else False))) + extra_inputs(key)
         reqs = [req_line(res["lean_name"], flat) for flat in inputs]
         try:
             model = common.lean_run("SrcModel", reqs, timeout=150)
@@ -1118,6 +1219,8 @@ def _run(ctx, prop):
         pf = PyFn(by[k], tgt)
         PF[k] = pf
         loopy = any(by[d].get("has_loop") for d in trans_deps(by, k))
+        if not loopy and any(by[d].get("uses_half") for d in trans_deps(by, k)):
+            loopy = "half"
         fns.append((pf, gen_inputs(by[k], vrng, quick=not ctx.thorough, loop=loopy) + extra_inputs(k)))
     if modules or fns:
         out, failed, lean_lines, changed, okmods, ar = build_and_validate(ctx, text, modules, fns)
@@ -1266,10 +1369,16 @@ def replay(ctx, payload):
             fails = c.neighbours(*g("i", "j", "k"))
         elif key == "srctie-trz-roundtrip":
             fails = c.trz(case.get("i", case.get("ring")), case.get("j", case.get("pos")), case.get("k", 0))
+        elif key in ("srctie-cart-ring-is-distance", "srctie-cart-pos-range"):
+            fails = c.cart_cell(case["i"], case["j"], int(case["throughCenter"]))
+        elif key == "srctie-cart-ring-numbering":
+            fails = c.cart_ring_bijection(case["ring"], int(case["throughCenter"]))
         elif key == "srctie-cart-ring-sizes":
             fails = c.cart_total(case["rings"], int(case["throughCenter"]))
         elif key in ("srctie-third-centre", "srctie-third-equivalents", "srctie-third-orbit-partition", "srctie-first-third-sector"):
             fails = c.third(*g("i", "j"))
+        elif key.startswith("srctie-rotate-"):
+            fails = c.rotate(case["i"], case["j"], case["rotations"], case.get("then", 1))
         elif key == "srctie-symmetry-line-class":
             fails = c.line(*g("i", "j"))
         elif key == "srctie-band-partition":
